@@ -211,6 +211,17 @@ def gen_cases(ctx):
     n = 60 if ctx.tier == "quick" else 2500
     for _ in range(n):
         cases.append({"i": len(cases), "tree": Gen(ctx.rng).tree() if True else None})
+    # _anchors at several levels sharing keys whose values have different shapes (mapping above, scalar/list/null below and vice versa)
+    shapes = [{"k": {"deep": {"x": 1}}}, {"k": "scalar"}, {"k": [1, 2]}, {"k": None}, {"k": {"deep": "s"}}, {"k": {}}]
+    for a in shapes:
+        for b in shapes:
+            if a is b:
+                continue
+            t = {"_anchors": a, "packages": {"example.com/x/q": {"config": {"_anchors": b, "all": True},
+                                                                 "interfaces": {"I": {"config": {"_anchors": a}, "configs": [{"_anchors": b}]}}}}}
+            cases.append({"i": len(cases), "tree": t})
+    for c in cases:
+        c["stale_outfile"] = ctx.rng.random() < 0.3
     return cases
 
 
@@ -312,6 +323,10 @@ def eval_case(ctx, case):
     h0 = hashlib.sha256(open(v2path, "rb").read()).hexdigest()
     out = os.path.join(root, "out", "v3.yml")
     os.makedirs(os.path.dirname(out))
+    if case.get("stale_outfile"):
+        # an earlier, longer migration result at the same --outfile path: nothing of it may survive
+        with open(out, "w") as f:
+            f.write("all: true\ndir: stale-dir\nstructname: StaleName\npackages:\n" + "".join("  example.com/stale/p%d:\n    config:\n      all: true\n" % k for k in range(200)))
     before = core.snapshot(root)
     r = core.run_mockery(ctx, root, ["migrate", "--config", v2path, "--outfile", out], timeout=120)
     if r.timed_out:
